@@ -71,7 +71,7 @@ theorem lChain_maps (c : MiniCfg) (ws : List Nat) (mn : Int) : ∀ d : Nat,
         rcases key s line endLine hc with h' | ⟨s'', h', _, hlt, _, hrunq⟩
         · rw [h'] at h; cases h
         · rw [h'] at h; cases h
-          obtain ⟨s3, s4, next, openT, closeT, hl3, hlen3, hend3, hLv3, hrun, htok3, htok, _, _, _, _, _, _, hline, hom, hcm⟩ :=
+          obtain ⟨s3, s4, next, openT, closeT, hl3, hlen3, hend3, hLv3, hrun, htok3, htok, _, _, _, _, _, _, hline, hom, hcm, _⟩ :=
             quote_tokens mn d _ s line s' hrunq
           obtain ⟨new, hs4, hst⟩ := ih.2 s3 line next s4 hlen3 hend3 hLv3 hrun
           refine ⟨_, htok new hs4, ?_⟩
@@ -101,7 +101,7 @@ theorem lChain_maps (c : MiniCfg) (ws : List Nat) (mn : Int) : ∀ d : Nat,
           obtain ⟨s6', nt', pe', hit', _, hgt6, _⟩ := listItem_ok mn d ordered mc (lChain c ws mn d) (lChain_ok c ws mn d).2 endLine s startLine markerLen
             hlen hend hlt hline hlv
           rw [hit] at hit'; cases hit'
-          obtain ⟨s2, s3, openT, closeT, h2t, h2l, h2m, h2len, hnest, htok, _, _, _, _, _, _, hcm, h6l⟩ :=
+          obtain ⟨s2, s3, openT, closeT, h2t, h2l, h2m, h2len, hnest, htok, _, _, _, _, _, _, hcm, h6l, _⟩ :=
             listItem_tokens _ _ _ _ _ _ _ _ _ _ _ hit
           have fin : ∀ innerToks, MapsIn startLine s3.line innerToks →
               MapsIn startLine s6.line ([openT.setMap (some (startLine, s3.line))] ++ innerToks ++ [closeT]) := by
